@@ -51,3 +51,88 @@ def chain(cls, n, leaves, right=False):
         nxt = next(it)
         acc = cls(nxt, acc) if right else cls(acc, nxt)
     return acc
+
+
+def shared_contexts(s, c=3, z=None, cond=None):
+    """Expressions in which the SAME object s stands at two or more places whose contexts differ
+    (a loose one first, a tight one later, and the other way round).  A tree built by a
+    generator has equal COPIES there; a tree built by a program that names a sub-expression and
+    uses it twice has one object.  Whatever remembers a node by identity (its text, its
+    derivative, 'already handled') answers the second place with the first place's answer."""
+    z = z if z is not None else p.Variable("z")
+    cond = cond if cond is not None else p.Comparison(z, ">", 0)
+    f = p.Variable("f")
+    return [
+        p.Sum((s, p.Product((c, s)))),
+        p.Sum((p.Product((c, s)), s)),
+        p.If(cond, s, p.Product((s, z))),
+        p.If(cond, p.Product((s, z)), s),
+        p.Sum((p.Power(s, 3), p.Product((s, z)))),
+        p.Sum((p.Product((s, z)), p.Power(s, 2))),
+        p.Call(f, (s, p.Product((2, s)))),
+        p.Sum((p.Call(f, (s, 1)), p.Product((-1, s)))),
+        p.Product((p.Sum((s, 1)), s)),
+        p.Quotient(s, p.Sum((p.Product((s, s)), 1))),
+        p.Comparison(s, "<=", p.Product((s, 2))),
+        p.Sum((s, s)),
+        p.Product((s, s, z)),
+    ]
+
+
+def _slots(x):
+    import dataclasses
+    if not (isinstance(x, p.Expression) and dataclasses.is_dataclass(x)):
+        return
+    for f in dataclasses.fields(x):
+        v = getattr(x, f.name)
+        if isinstance(v, p.Expression):
+            yield f.name, None, v
+        elif isinstance(v, tuple):
+            for i, c in enumerate(v):
+                if isinstance(c, p.Expression):
+                    yield f.name, i, c
+
+
+def _replace_at(x, path, s):
+    import dataclasses
+    if not path:
+        return s
+    (f, i) = path[0]
+    v = getattr(x, f)
+    if i is None:
+        nv = _replace_at(v, path[1:], s)
+    else:
+        nv = v[:i] + (_replace_at(v[i], path[1:], s),) + v[i + 1:]
+    return dataclasses.replace(x, **{f: nv})
+
+
+def graft(e, rng, composite_only=True, same_type=False, avoid_fields=("function", "aggregate"),
+          accept=None):
+    """e with ONE of its composite sub-expression objects also put at another place of the tree
+    (in place of what stood there): a tree with a shared node, as a program builds when it names
+    a sub-expression and uses it twice.  None when the tree has no two places to share between.
+    same_type: only in place of a node of the same class; avoid_fields: never at or below these
+    fields; accept(old, new): the caller's own fragment rules."""
+    places = []
+
+    def walk(x, path):
+        places.append((path, x))
+        for f, i, c in _slots(x):
+            walk(c, path + ((f, i),))
+    walk(e, ())
+    sources = [(pa, n) for pa, n in places if pa and not isinstance(n, p.Slice)
+               and (not composite_only or any(True for _ in _slots(n)))]
+    if not sources:
+        return None
+    spath, s = rng.choice(sources)
+    deep = avoid_fields != ("function", "aggregate")
+    targets = [pa for pa, n in places
+               if pa and pa[:len(spath)] != spath and spath[:len(pa)] != pa
+               and not (pa[-1][0] in avoid_fields)
+               and not (deep and any(f in avoid_fields for f, _ in pa))
+               and (not same_type or type(n) is type(s))
+               and n is not s
+               and (accept is None or accept(n, s))]
+    if not targets:
+        return None
+    return _replace_at(e, rng.choice(targets), s)
